@@ -30,6 +30,8 @@ macro_rules! apply_math_bin_op_if_applicable {
     (@int + $x:expr, $y:expr) => { $x.checked_add($y).expect("integer overflow in `+`") };
     (@int - $x:expr, $y:expr) => { $x.checked_sub($y).expect("integer overflow in `-`") };
     (@int * $x:expr, $y:expr) => { $x.checked_mul($y).expect("integer overflow in `*`") };
+    // `MIN % -1` is 0 (plain `%` reports an overflow there); a zero divisor still stops the program.
+    (@int % $x:expr, $y:expr) => { $x.wrapping_rem($y) };
     (@int $symbol:tt $x:expr, $y:expr) => { $x $symbol $y };
     ($lhs:ident $symbol:tt $rhs:ident) => {{
         let x = apply_math_bin_op_if_applicable!(@no_f64 $lhs $symbol $rhs);
